@@ -72,6 +72,8 @@ class Poly(dict):
         return r
 
     def inv(self):
+        if len(self) == 0:
+            raise ZeroDivisionError("division by a zero literal")
         if len(self) != 1:
             raise cparse.CParseError("division by a non-monomial")
         (m, c), = self.items()
